@@ -61,6 +61,10 @@ class FString(object):
     def candidates(self):
         actual_candidates = []
 
+        if len(self.node.values) == 0:
+            # An empty f-string has nothing to choose between
+            return ['f' + quote * 2 for quote in self.allowed_quotes if len(quote) == 1]
+
         for quote in self.allowed_quotes:
             candidates = ['']
             debug_specifier_candidates = []
